@@ -48,7 +48,7 @@ LEVEL_TEXT = ("Theorems (Lean 4, all (ip,len), no size bound): every derived val
 LEVEL_NOTE = ("Trusted: Lean kernel; axioms propext/Classical.choice/Quot.sound only; the correspondence harness; Python `re` and "
               "`ipaddress` are modelled (hand-written matchers / re-implementation), their agreement with the real modules is measured, not proved; "
               "the stdlib IPv6 parser model is additionally proved sound and complete for the RFC 4291 grammar written in Spec/IP.lean.")
-LEVEL_NOTE += (" " + "regexes_as_modelled (Ccp.RxC11): the source texts of _IPV6_RGX_CLS, _RGX_IPV4ADDR_WITH_MASK, _RGX_IPV6ADDR (re.VERBOSE patterns in canonical verbose form, with their flags) and of every regex call / literal separator of IPv4Obj.__init__ and IPv6Obj.__init__ are regenerated from /repo on every run and proved equal to the literals the automata matchV4 / matchV6 / fullDigits / fullQuad / searchQuad / splitWs were written for, so an edit of one of these regexes breaks an obligation of this check (the regex -> automaton step itself stays modelled, measured by the correspondence).")
+LEVEL_NOTE += (" " + "regexes_as_modelled (Ccp.RxC11): the regex calls of IPv4Obj.__init__ and IPv6Obj.__init__ with their pattern texts and flags (_RGX_IPV4ADDR_WITH_MASK and _RGX_IPV6ADDR = _IPV6_REGEX_STR with _IPV6_RGX_CLS substituted, both re.VERBOSE, compared in canonical verbose form; the three in-line IPv4 checks; the \\s+ split and the '/' join) are re-read from /repo's AST on every run (harness/rxscan.py) and proved equal to the literals the automata matchV4 / matchV6 / fullDigits / fullQuad / searchQuad / splitWs were written for, so an edit of one of these regexes breaks an obligation of this check (the regex -> automaton step itself stays modelled, measured by the correspondence).")
 EXHAUSTIVE = {"quick": False, "thorough": False}
 ASSUMPTIONS = [
     "ipaddress (CPython 3.12) parsing/rendering is re-implemented in the model; agreement measured by three-way correspondence",
